@@ -119,8 +119,8 @@ Definition rfa_match_x (tol : Qc) (m : res (list Qc * list Qc)) (ox : list Qc) (
 
     # ------------------------------------------------------------------ generation
     def mk(self, rng, strategy, m=None, n=None, **over):
-        m = m or rng.choice([2, 3, 3, 4, 5, 6, 8])
-        n = n or rng.choice([2, 3, 4, 4, 5, 8, 8, 16])
+        m = m if m is not None else rng.choice([2, 3, 3, 4, 5, 6, 8])
+        n = n if n is not None else rng.choice([2, 3, 4, 4, 5, 8, 8, 16])      # (not `n or ...`: the factor 0 is a case of its own)
         c = {"strategy": strategy, "x": gens.sorted_x(rng, m) if rng.random() < 0.85 else gens.loose_x(rng, m), "y": gens.values(rng, m), "n": n, "int_x": False}
         if strategy in ("linfixed", "linadapt", "expfixed", "expadapt"):
             if rng.random() < 0.4:
@@ -234,7 +234,7 @@ Definition rfa_match_x (tol : Qc) (m : res (list Qc * list Qc)) (ox : list Qc) (
                  "ndim": [int(np.ndim(xs)), int(np.ndim(ys))],
                  "elem_kinds": sorted({type(v).__name__ for v in (ys if isinstance(ys, list) else [])}),
                  "x": np.asarray(xs, dtype=float).tolist(), "y": np.asarray(ys, dtype=float).reshape(-1).tolist(),
-                 "xbytes_equal": bool(np.asarray(xs, dtype=float)[::int(c["n"])].tobytes() == x.tobytes())}
+                 "xbytes_equal": bool(np.asarray(xs, dtype=float)[::(int(c["n"]) if c["n"] >= 2 else 1)].tobytes() == x.tobytes())}
             # a call must not depend on what callers did with earlier results: edit the returned arrays in place (as a
             # caller converting units would) and repeat the identical call on fresh copies of the inputs
             try:
